@@ -36,7 +36,7 @@ def generate(rng, tier):
     return gen.gen_case(rng, {
         "paired": True, "p_filters": 0.8, "p_redirect": 0.6, "p_untrimmed_opts": 0.6, "p_demux": 0.15,
         "p_pair_adapters": 0.15, "p_revcomp": 0.08, "p_info": 0.05, "p_rename": 0.0, "p_minimal_report": 0.05,
-        "rename_template": TEMPLATE, "allow_fasta_names_for_fastq": False, "p_stdout": 0.08, "json": False,
+        "rename_template": TEMPLATE, "allow_fasta_names_for_fastq": False, "p_stdout": 0.08, "json": False, "p_devnull": 0.1,
     })
 
 
@@ -46,12 +46,36 @@ def collect(case, res, name, viols):
     input_ids = {r[0] for r in case["records"]}
     for d in C.destinations(case):
         try:
-            f, r1, r2 = C.read_dest(res, d)
+            f, r1, r2, observed = C.read_dest_ex(res, d)
         except KeyError as e:
             viols.append(C.V("output-missing", f"{name}: output file {e} was not created"))
             continue
         except fmt.FormatError as e:
             viols.append(C.V("unparseable-output", f"{name}: {d['paths']}: {e}"))
+            continue
+        if observed == "none":
+            where.setdefault("__unobserved__", set()).add(d["role"])
+            continue
+        if observed in ("r1", "r2"):
+            # the mate file is /dev/null: this file alone must hold one record per pair, of its own side
+            side = 3 if observed == "r1" else 5
+            byid = {r[0]: r for r in case["records"]}
+            last = -1
+            for rec in (r1 if observed == "r1" else r2):
+                i = C.rid(rec[0])
+                if i not in input_ids:
+                    viols.append(C.V("foreign-id", f"{name}: {d['paths']}: {rec[0]!r} is not an input pair"))
+                    continue
+                n = int(i[2:])
+                if n <= last:
+                    viols.append(C.V("desync", f"{name}: {d['paths']}: record {rec[0]!r} follows pair {last}: the file next to /dev/null does not hold one record per pair in input order"))
+                    break
+                last = n
+                if i in where:
+                    viols.append(C.V("pair-not-unit", f"{name}: pair {i} is in {where[i]['path']} and in {d['paths']}"))
+                    continue
+                where[i] = {"role": d["role"], "key": d["key"], "r1": rec if observed == "r1" else None,
+                            "r2": rec if observed == "r2" else None, "path": str(d["paths"])}
             continue
         if r2 is None:
             continue
@@ -90,6 +114,7 @@ def judge(case, mdl, shadow, res, name):
     where = collect(case, res, name, viols)
     if viols:
         return viols
+    unobserved = where.pop("__unobserved__", set())
     meta = case["meta"]
     fates = set()
     for rec in case["records"]:
@@ -115,6 +140,8 @@ def judge(case, mdl, shadow, res, name):
             if act is not None:
                 viols.append(C.V("pair-decision", f"{name}: pair {i} should be discarded as {cat} (mode {mdl.mode}/{mdl.untrimmed_mode}; lengths {len(sh['r1'][1])}/{len(sh['r2'][1])}; stamps {st}) but is in {act['path']}"))
             continue
+        if act is None and role in unobserved:
+            continue  # went to /dev/null
         if act is None:
             viols.append(C.V("pair-decision", f"{name}: pair {i} should go to '{role}' (lengths {len(sh['r1'][1])}/{len(sh['r2'][1])}; stamps {st}; mode {mdl.mode}/{mdl.untrimmed_mode}) but is in no output file"))
             continue
@@ -131,7 +158,7 @@ def judge(case, mdl, shadow, res, name):
                 got = tuple(got)
             if got != exp:
                 viols.append(C.V("demux-routing", f"{name}: pair {i} with stamps {st} is in {act['path']}"))
-        if tuple(act["r1"]) != tuple(sh["r1"]) or tuple(act["r2"]) != tuple(sh["r2"]):
+        if (act["r1"] is not None and tuple(act["r1"]) != tuple(sh["r1"])) or (act["r2"] is not None and tuple(act["r2"]) != tuple(sh["r2"])):
             viols.append(C.V("record-content", f"{name}: pair {i} in {act['path']} differs from the same pair without filters"))
     # --pair-adapters: same rank or neither
     if meta["pair_adapters"]:
@@ -139,6 +166,8 @@ def judge(case, mdl, shadow, res, name):
         action = C._optval(case["opts"], "--action") or "trim"
         byid = {r[0]: r for r in case["records"]}
         for i, w in where.items():
+            if w["r1"] is None or w["r2"] is None:
+                continue
             st = stamps(w["r1"])
             if st is None:
                 continue
@@ -228,7 +257,7 @@ def evaluate(case, ctx):
     if hv:
         return viols + hv
     if par.exit != 0:
-        if C.is_buffer_too_small(par):
+        if C.is_buffer_too_small(par, case):
             raise engine.Discard("buffer-too-small")
         viols.append(C.V("exit-status", f"par: exit status {par.exit}; stderr tail {par.stderr[-300:]!r}"))
     else:
